@@ -3,6 +3,7 @@ package uhppote
 
 import (
 	"os"
+	"sync"
 	"time"
 
 	"github.com/uhppoted/uhppote-core/types"
@@ -71,18 +72,35 @@ func VerifC02_StatusZoned_IANA() { c13Status(true) }
 
 // the same for an event delivered by the listener (Listen has its own copy of the recombination)
 type c13Listener struct {
+	mu  sync.Mutex
 	got []types.Status
 }
 
-func (l *c13Listener) OnConnected()            {}
-func (l *c13Listener) OnEvent(s *types.Status) { l.got = append(l.got, *s) }
-func (l *c13Listener) OnError(error) bool      { return true }
+func (l *c13Listener) OnConnected() {}
+func (l *c13Listener) OnEvent(s *types.Status) {
+	l.mu.Lock()
+	defer l.mu.Unlock()
+	l.got = append(l.got, *s)
+}
+func (l *c13Listener) OnError(error) bool { return true }
+func (l *c13Listener) settle(i int) {
+	for tries := 0; tries < 100; tries++ {
+		l.mu.Lock()
+		n := len(l.got)
+		l.mu.Unlock()
+		if n > i {
+			return
+		}
+		time.Sleep(10 * time.Millisecond)
+	}
+}
 
 func c13Listen(iana bool) {
 	z := c13ZonedReply(iana)
 	d := &vDriver{events: [][]byte{z.r}, async: true}
 	u := vClient(d)
 	l := &c13Listener{}
+	d.settle = l.settle
 	q := make(chan os.Signal, 1)
 	q <- os.Interrupt
 	err := u.Listen(l, q)
